@@ -1,12 +1,12 @@
 #!/usr/bin/env python3
-"""
-import os as _os, sys as _sys
-if not _os.environ.get("VERIF_BUILD_DIR") and "--real-repo" not in _sys.argv:
-    _sys.exit("refusing to patch /repo itself: run inside the private mount namespace (VERIF_BUILD_DIR set, see tools/nsrun.sh / DESIGN §12) or pass --real-repo")
-seedrecheck.py [names...]  — run inside the private namespace (see tools/seedrecheck.sh).
+"""seedrecheck.py [names...]  — run inside the private namespace (see tools/seedrecheck.sh).
 For every archived seed: apply its patch to /repo (the mounted clone), run the checks that reported it
 when it was validated (and its own property's check), record what reports it NOW in meta.json
 (`recheck`), undo. A seed that was reported before and is not now is printed as LOST."""
+import os as _os, sys as _sys
+if not _os.environ.get("VERIF_BUILD_DIR") and "--real-repo" not in _sys.argv:
+    _sys.exit("refusing to patch /repo itself: run inside the private mount namespace (VERIF_BUILD_DIR set, see tools/nsrun.sh / DESIGN §12) or pass --real-repo")
+
 import glob, json, os, subprocess, sys, time
 names = [a for a in sys.argv[1:] if not a.startswith("--")] or sorted(os.path.basename(os.path.dirname(p)) for p in glob.glob("/verif/seeded/*/meta.json"))
 for n in names:
